@@ -1,1 +1,180 @@
+import PQ.Model.ParseStruct
 import PQ.Model.Structs
+import PQ.Lemmas.ParseStruct
+/-!
+# C15 — a struct regenerated from a file reads that file back faithfully (structural part)
+
+`parquetgen -parquet` calls `structs.Struct` (`PQ.Structs.structOf`) on the footer schema and then
+generates code for the struct it printed, i.e. for the field tree `parse.Fields`
+(`PQ.Parse.parseStruct`) finds in it.  For a field forest `ts` the writer's footer schema is
+`root :: flattenT ts` (`PQ.schemaElems_tree`).
+
+* `structOf_regenerates` — step (a): `structOf` consumes exactly that flattening and returns the
+  declarations `declsOf structName ts` (no condition on names);
+* `regenerate` — steps (b), (c): parsed back, these declarations give the field tree `treeOf ts`:
+  same columns (`col`), nesting (`children`), optionality (`rt`) and physical types (`ty`), Go names
+  being the Title-cased column names — provided no node is repeated, leaf types are among
+  int32/int64/float32/float64/bool/string, names are usable, and **group names are unique in the
+  whole forest and differ from the struct name** (`structOf` names the type of a group after it);
+* `regenerate_written`: the same starting from the columns, through `schemaElems`;
+* a counter-example for non-unique group names.
+
+Statement-level definitions (`toSE`, `treeOf`, `declsOf`, `OKL`, `groupNames`, …) live in
+`PQ/Lemmas/ParseStruct.lean`, namespace `PQ.Structs`; their defining equations are restated below.
+-/
+namespace PQ.C15
+open PQ PQ.Parse PQ.Structs
+
+/-! ## the definitions the statements use -/
+
+example (e : SElem) : toSE e = { name := e.name, ty := e.ty, rep := e.rep, nc := e.numChildren } := rfl
+
+example (n : String) (r : Rep) (ty : PType) :
+    treeOf1 (.leaf n r ty) = { name := title n, col := n, ty := goType ty.phys, rt := rtOf r, children := [] } := by rw [treeOf1]
+example (n : String) (r : Rep) (cs : List FTree) :
+    treeOf1 (.group n r cs) = { name := title n, col := n, ty := title n, rt := rtOf r, children := treeOf cs } := by rw [treeOf1]
+example : treeOf [] = [] := by rw [treeOf]
+example (t : FTree) (ts : List FTree) : treeOf (t :: ts) = treeOf1 t :: treeOf ts := by rw [treeOf]
+
+example (structName : String) (ts : List FTree) :
+    declsOf structName ts = { name := title structName, fields := fieldsOf ts } :: nestedOf ts := rfl
+example (n : String) (r : Rep) (cs : List FTree) :
+    nestedOf1 (.group n r cs) = { name := title n, fields := fieldsOf cs } :: nestedOf cs := by rw [nestedOf1]
+example (n : String) (r : Rep) (ty : PType) : nestedOf1 (.leaf n r ty) = [] := by rw [nestedOf1]
+example (t : FTree) (ts : List FTree) : nestedOf (t :: ts) = nestedOf1 t ++ nestedOf ts := by rw [nestedOf]
+example (ts : List FTree) : fieldsOf ts = ts.map fun t => fieldOf (hdSE t) := rfl
+
+example (priv : String → Bool) (n : String) :
+    GoodName priv n ↔ (priv (title n) = false ∧ n ≠ "-" ∧ parseTag ("parquet:\"" ++ n ++ "\"") = n) := Iff.rfl
+example (priv : String → Bool) (n : String) (r : Rep) (ty : PType) :
+    OKT priv (.leaf n r ty) ↔ (GoodName priv n ∧ r ≠ .rpt ∧ ty ≠ .u32 ∧ ty ≠ .u64) := by rw [OKT]
+example (priv : String → Bool) (n : String) (r : Rep) (cs : List FTree) :
+    OKT priv (.group n r cs) ↔ (GoodName priv n ∧ r ≠ .rpt ∧ primitives.contains (title n) = false ∧ OKL priv cs) := by rw [OKT]
+example (priv : String → Bool) (t : FTree) (ts : List FTree) : OKL priv (t :: ts) ↔ (OKT priv t ∧ OKL priv ts) := by rw [OKL]
+example (n : String) (r : Rep) (cs : List FTree) : groupNames1 (.group n r cs) = n :: groupNames cs := by rw [groupNames1]
+example (t : FTree) (ts : List FTree) : groupNames (t :: ts) = groupNames1 t ++ groupNames ts := by rw [groupNames]
+
+/-- the name conditions hold for a column name without `"` and `:` whose Title-cased form is exported -/
+theorem goodName (priv : String → Bool) (n : String) (h1 : priv (title n) = false) (h2 : n ≠ "-")
+    (hq : '"' ∉ n.toList) (hc : ':' ∉ n.toList) : GoodName priv n :=
+  goodName_of priv n h1 h2 hq (fun hs => hc (hs.subset (by decide)))
+
+/-! ## the theorems -/
+
+/-- **(a)** `structs.Struct` consumes exactly the flattening of the forest and returns one
+declaration for the struct and one per group, own first, nested ones after it in order.
+`root` is any element announcing `ts.length` children (the writer's is named `root`). -/
+theorem structOf_regenerates (structName : String) (ts : List FTree) (hwf : ∀ t ∈ ts, t.WF) (root : SElem)
+    (hroot : root.numChildren = some ts.length) :
+    structOf structName ((root :: flattenT ts).map toSE) = some (declsOf structName ts) :=
+  structOf_forest structName ts ((WFL_iff ts).mpr hwf) root hroot
+
+/-- **(b), (c)** the regenerated declarations, read by `parse.Fields`, give back the forest -/
+theorem parse_regenerated (priv : String → Bool) (structName : String) (ts : List FTree) (hwf : ∀ t ∈ ts, t.WF)
+    (hok : OKL priv ts) (huniq : (title structName :: (groupNames ts).map title).Nodup) :
+    parseStruct priv (declsOf structName ts) (title structName) = treeOf ts :=
+  parse_declsOf priv structName ts ((WFL_iff ts).mpr hwf) hok huniq
+
+/-- **A struct regenerated from a file's schema has the same columns, nesting, optionality and
+physical types**: for a forest without repeated nodes, with int32/int64/float32/float64/bool/string
+leaves, usable names and uniquely named groups, `structs.Struct` succeeds on the footer schema
+`root :: flattenT ts` and `parse.Fields` of its output is `treeOf ts`. -/
+theorem regenerate (priv : String → Bool) (structName : String) (ts : List FTree) (hwf : ∀ t ∈ ts, t.WF)
+    (hok : OKL priv ts) (huniq : (title structName :: (groupNames ts).map title).Nodup)
+    (root : SElem) (hroot : root.numChildren = some ts.length) :
+    ∃ ds, structOf structName ((root :: flattenT ts).map toSE) = some ds ∧
+      parseStruct priv ds (title structName) = treeOf ts :=
+  ⟨_, structOf_regenerates structName ts hwf root hroot, parse_regenerated priv structName ts hwf hok huniq⟩
+
+/-- … starting from the columns the writer declares for the shape: the footer schema is the one Go's
+`schema()` produces (`schemaElems_tree`) -/
+theorem regenerate_written (priv : String → Bool) (structName : String) (ts : List FTree) (hwf : ∀ t ∈ ts, t.WF)
+    (hsd : SiblingsDistinct ts) (hok : OKL priv ts) (huniq : (title structName :: (groupNames ts).map title).Nodup) :
+    ∃ elems ds, schemaElems (colsOf ts) = some elems ∧ structOf structName (elems.map toSE) = some ds ∧
+      parseStruct priv ds (title structName) = treeOf ts := by
+  obtain ⟨ds, h1, h2⟩ := regenerate priv structName ts hwf hok huniq { name := "root", numChildren := some ts.length } rfl
+  exact ⟨_, ds, schemaElems_tree ts hwf hsd, h1, h2⟩
+
+/-! ## Examples -/
+
+section examples
+
+/-- a file written for `Person { ID int64 "id"; Hobby *Hobby "hobby" { Name string "name"; Difficulty *int32 "difficulty" }; Sleepy bool }` -/
+def exPerson : List FTree :=
+  [.leaf "id" .req .i64,
+   .group "hobby" .opt [.leaf "name" .req .str, .leaf "difficulty" .opt .i32],
+   .leaf "Sleepy" .req .bool]
+
+example : ∀ t ∈ exPerson, t.WF := by decide
+example : OKL isPrivateUpper exPerson := okL_of_B _ _ (by decide)
+example : (title "Person" :: (groupNames exPerson).map title).Nodup := by decide
+
+set_option maxRecDepth 100000 in
+/-- the Go text `structs.Struct` returns for it -/
+example : (structOf "Person" (({ name := "root", numChildren := some 3 } :: flattenT exPerson).map toSE)).map render =
+    some "type Person struct {\n\t\nId int64 `parquet:\"id\"`\nHobby *Hobby `parquet:\"hobby\"`\nSleepy bool `parquet:\"Sleepy\"`\n}\n\ntype Hobby struct {\n\t\nName string `parquet:\"name\"`\nDifficulty *int32 `parquet:\"difficulty\"`\n}" := by
+  rw [structOf_regenerates "Person" exPerson (by decide) _ rfl]
+  decide
+
+/-- parsed back: same columns, nesting, optionality, types -/
+example : flatFs 0 (parseStruct isPrivateUpper (declsOf "Person" exPerson) "Person") =
+    [(0, "Id", "id", "int64", .req, false),
+     (0, "Hobby", "hobby", "Hobby", .opt, false),
+       (1, "Name", "name", "string", .req, false), (1, "Difficulty", "difficulty", "int32", .opt, false),
+     (0, "Sleepy", "Sleepy", "bool", .req, false)] := by
+  rw [parseStructL_eq]; decide
+
+/-! ### why group names must be unique
+
+Two groups named `g` under different parents, with different children: a legal shape (siblings are
+distinct, `schema()` handles it — `schemaElems_tree`), but `structs.Struct` declares the type `G`
+twice, and whichever declaration `parse.Fields` picks, one of the two groups gets the other's
+children. -/
+
+def exDup : List FTree :=
+  [.group "a" .req [.group "g" .req [.leaf "x" .req .i32]],
+   .group "b" .req [.group "g" .req [.leaf "y" .req .i64]]]
+
+example : ∀ t ∈ exDup, t.WF := by decide
+example : SiblingsDistinct exDup := by decide
+example : OKL isPrivateUpper exDup := okL_of_B _ _ (by decide)
+example : ¬ (title "Top" :: (groupNames exDup).map title).Nodup := by decide
+
+/-- the regenerated declarations: `G` is declared twice (with different fields) -/
+example : (structOf "Top" (({ name := "root", numChildren := some 2 } :: flattenT exDup).map toSE)).map (fun ds => ds.map (·.name)) =
+    some ["Top", "A", "G", "B", "G"] := by
+  rw [structOf_regenerates "Top" exDup (by decide) _ rfl]
+  decide
+
+/-- parsed back (first declaration wins in the model): column `b.g.y` has become `b.g.x`, an int32 -/
+example : flatFs 0 (parseStruct isPrivateUpper (declsOf "Top" exDup) "Top") =
+    [(0, "A", "a", "A", .req, false), (1, "G", "g", "G", .req, false), (2, "X", "x", "int32", .req, false),
+     (0, "B", "b", "B", .req, false), (1, "G", "g", "G", .req, false), (2, "X", "x", "int32", .req, false)] := by
+  rw [parseStructL_eq]; decide
+
+example : flatFs 0 (treeOf exDup) =
+    [(0, "A", "a", "A", .req, false), (1, "G", "g", "G", .req, false), (2, "X", "x", "int32", .req, false),
+     (0, "B", "b", "B", .req, false), (1, "G", "g", "G", .req, false), (2, "Y", "y", "int64", .req, false)] := by
+  decide
+
+/-- so the conclusion of `regenerate` fails for this forest -/
+example : parseStruct isPrivateUpper (declsOf "Top" exDup) "Top" ≠ treeOf exDup := by
+  intro h
+  have := congrArg (flatFs 0) h
+  rw [parseStructL_eq] at this
+  revert this; decide
+
+/-- with the other choice (the last declaration wins, as in Go's map of type specs) it is `a.g` that is wrong -/
+example : flatFs 0 (parseStruct isPrivateUpper (declsOf "Top" exDup).reverse "Top") =
+    [(0, "A", "a", "A", .req, false), (1, "G", "g", "G", .req, false), (2, "Y", "y", "int64", .req, false),
+     (0, "B", "b", "B", .req, false), (1, "G", "g", "G", .req, false), (2, "Y", "y", "int64", .req, false)] := by
+  rw [parseStructL_eq]; decide
+
+/-- the theorem applies to `exPerson` -/
+example : ∃ ds, structOf "Person" (({ name := "root", numChildren := some 3 } :: flattenT exPerson).map toSE) = some ds ∧
+    parseStruct isPrivateUpper ds "Person" = treeOf exPerson := by
+  have := regenerate isPrivateUpper "Person" exPerson (by decide) (okL_of_B _ _ (by decide)) (by decide) { name := "root", numChildren := some 3 } rfl
+  rwa [show title "Person" = "Person" by decide] at this
+
+end examples
+end PQ.C15
